@@ -321,6 +321,8 @@ def run_exchange(ctx, case):
             idx = [i for i in range(5) if mine[i] != ref[i]]
             V("spec-accessory:model-vs-reference", f"Model/Srp.v server_x and harness/ref/srp_ref.py disagree on fields {idx} "
               "(B_b,K,M1,ok,M2)", False)
+    if conformant and code == scode and impl["status"] == "ok":
+        res["alt_convention_differs"] = (R.skip_zero_variant_accepts(scode.encode(), salt, b, impl["A_b"], impl["M1"]) != verdict["ok"])
     res["flags"] = dict(A0=impl["A_b"][:1] == b"\x00", B0=B_b[:1] == b"\x00", K0=impl["K"][:1] == b"\x00",
                         M1_0=impl["M1"][:1] == b"\x00", M2_0=M2[:1] == b"\x00", salt0=salt[:1] == b"\x00")
     return res
@@ -432,6 +434,22 @@ def run(ctx):
     tba_model, pl_model, mc = out[-3], out[-2], out[-1]
     t_model = time.time()
 
+    # ---- exchanges (first, so that their samples are kept)
+    flags = dict(A0=0, B0=0, K0=0, M1_0=0, M2_0=0, salt0=0)
+    flips_checked = 0
+    for res in results:
+        viols += res["viol"]
+        c = res["case"]
+        for k, v in res.get("flags", {}).items():
+            flags[k] += 1 if v else 0
+        flips_checked += 512 if res["impl_status"] == "ok" else 0
+        canon = json.dumps([c["code"], c["server_code"], c["salt"], c["a"], c["b"], c.get("B_b")])
+        cov.case("ex" + canon, True, stream="exchange", exchange_kind=c["kind"], exchange_impl=res["impl_status"],
+                 directed_hit=c["hit"],
+                 sample=dict(stream="exchange", kind=c["kind"], code=c["code"], salt=c["salt"], a=str(c["a"]), b=str(c["b"]),
+                             A_b=res["impl"]["A_b"][:24] + "...", K=res["impl"]["K"][:24] + "...", pair_setup=res.get("pair_setup"),
+                             model_seconds=res.get("model_s")) if len(cov.samples) < 7 else None)
+
     # ---- constants, read from the implementation at run time
     model_consts = dict(N=int.from_bytes(bytes(mc[0]), "big"), g=int.from_bytes(bytes(mc[1]), "big"),
                         k=int.from_bytes(bytes(mc[2]), "big"), hgroup=bytes(mc[3]), keylen=mc[4][0], saltlen=mc[4][1])
@@ -497,21 +515,11 @@ def run(ctx):
                                    impl=im, model=mo))
         cov.case(f"pl{d.hex()}/{ln}", True, stream="pad_left", pad_result=im.split(" ")[0])
 
-    # ---- exchanges
-    flags = dict(A0=0, B0=0, K0=0, M1_0=0, M2_0=0, salt0=0)
-    flips_checked = 0
-    for res in results:
-        viols += res["viol"]
-        c = res["case"]
-        for k, v in res.get("flags", {}).items():
-            flags[k] += 1 if v else 0
-        flips_checked += 512 if res["impl_status"] == "ok" else 0
-        canon = json.dumps([c["code"], c["server_code"], c["salt"], c["a"], c["b"], c.get("B_b")])
-        cov.case("ex" + canon, True, stream="exchange", exchange_kind=c["kind"], exchange_impl=res["impl_status"],
-                 directed_hit=c["hit"],
-                 sample=dict(stream="exchange", kind=c["kind"], code=c["code"], salt=c["salt"], a=str(c["a"]), b=str(c["b"]),
-                             A_b=res["impl"]["A_b"][:24] + "...", K=res["impl"]["K"][:24] + "...", pair_setup=res.get("pair_setup"),
-                             model_seconds=res.get("model_s")))
+    cov.extra["informational_skip_leading_zero_convention"] = dict(
+        note="exchanges on which an accessory hashing A, B, S without leading zero bytes in M1/K (not the convention DESIGN.md fixes) "
+             "would judge the controller's proof differently; not counted as violations",
+        exchanges=sum(1 for res in results if res.get("alt_convention_differs")),
+        kinds=sorted({res["case"]["kind"] for res in results if res.get("alt_convention_differs")}))
     cov.extra["exhaustive"] = False
     cov.extra["exchanges"] = len(results)
     cov.extra["leading_zero_hits"] = flags
